@@ -648,14 +648,22 @@ class ttensor:
         -------
         Computed eigenvectors.
         """
+        # Work on double-precision holders (as tensor.nvecs does): products of narrow
+        # integer cores / factors wrap around, float32 ones lose half the digits
+        factors = [f.astype(np.float64, copy=False) for f in self.factor_matrices]
+        G = self.core
+        if isinstance(G, ttb.sptensor):
+            G = ttb.sptensor(G.subs, G.vals.astype(np.float64), G.shape, copy=False)
+        else:
+            G = ttb.tensor(G.double(), copy=False)
         # Compute inner product of all n-1 factors
         V = []
-        for factor_idx, factor in enumerate(self.factor_matrices):
+        for factor_idx, factor in enumerate(factors):
             if factor_idx == n:
                 V.append(factor)
             else:
                 V.append(factor.transpose().dot(factor))
-        H = self.core.ttm(V)
+        H = G.ttm(V)
 
         if isinstance(H, ttb.sptensor):
             HnT = H.to_sptenmat(
@@ -663,8 +671,6 @@ class ttensor:
             ).double()
         else:
             HnT = H.full().to_tenmat(cdims=np.array([n], order=self.order)).double()
-
-        G = self.core
 
         if isinstance(G, ttb.sptensor):
             GnT = G.to_sptenmat(
@@ -675,10 +681,10 @@ class ttensor:
 
         # Compute Xn * Xn'
         # Big hack because if RHS is sparse wrong dot product is used
-        if sparse.issparse(self.factor_matrices[n]):
-            XnT = sparse.coo_matrix.dot(GnT, self.factor_matrices[n].transpose())
+        if sparse.issparse(factors[n]):
+            XnT = sparse.coo_matrix.dot(GnT, factors[n].transpose())
         else:
-            XnT = GnT.dot(self.factor_matrices[n].transpose())
+            XnT = GnT.dot(factors[n].transpose())
         if sparse.issparse(XnT):
             Y = sparse.coo_matrix.dot(HnT.transpose(), XnT)
         else:
